@@ -52,6 +52,19 @@ def canon(t):
     if t[0] in ("ref", "deref", "index", "call"):
         e = elem(t)
         if e is not None:
+            base, idx = e
+            # an element of a sub-slice v[a..b] is element a + idx of v (the sub-slice's own bounds check is a crash
+            # matter, C14); an element read by a whole range is not a single element
+            sub = elem(base)
+            if sub is not None:
+                rng = peel(sub[1])
+                if rng[0] == "agg" and isinstance(rng[2], str) and rng[2].startswith("std::ops::Range::") and len(rng[3]) == 2:
+                    from ..query import linear
+                    co, k = linear(("bin", "Add", strip_site(rng[3][0]), strip_site(idx)))
+                    co = {a: c for a, c in co.items() if c != 0}
+                    if k == 0 and len(co) == 1 and list(co.values()) == [1]:
+                        return ("elem", canon(strip_site(sub[0])), canon(list(co)[0]))
+                    return ("elem", canon(strip_site(sub[0])), canon(("bin", "Add", strip_site(rng[3][0]), strip_site(idx))))
             return ("elem", canon(strip_site(e[0])), canon(strip_site(e[1])))
     return tuple(canon(x) for x in t)
 
